@@ -191,4 +191,75 @@ def baseIndices (p : ParsedIRI) : Option BaseIdx :=
     | _, _ => none
   else some ⟨none, none, baseQuery.length, queryIndex, fragmentIndex⟩
 
+/-! ### histories over the whole exported API of `ParsedIRI` / `BaseIRI`
+
+One `ParsedIRI` value (`cur`) is driven through a sequence of exported operations, the way the decoders
+do (`Parse`, then `DropFragment`, then use as a base …). The Go methods that mutate in place
+(`DropFragment`) are pure functions here; the aliasing probes (`childDrop`, `urlCopy`) state that the
+mutation of a derived value / of the copy returned by `URL()` leaves `cur` untouched.
+Tied by T3 op `piri.hist` (go/cmd/c12/hist.go), exact agreement on every step. -/
+
+inductive HOp where
+  | parse (r : Str)      -- cur = cur.Parse(r)
+  | drop                 -- cur.DropFragment()
+  | refDrop (r : Str)    -- x = ParseIRI(r); x.DropFragment(); cur = cur.ResolveReference(x)
+  | under (b : Str)      -- x = ParseIRI(b); cur = x.ResolveReference(cur)
+  | childDrop (r : Str)  -- c = cur.Parse(r); c.DropFragment(); cur stays
+  | urlCopy              -- u = cur.URL(); the copy is overwritten; cur stays
+  | viaBase (r : Str)    -- b = NewBaseIRI(cur) (indices reported); cur = b.Parse(r) / b.ResolveReference(ParseIRI(r))
+deriving DecidableEq, Repr
+
+inductive HStep where
+  | ok (p : ParsedIRI) (idx : Option BaseIdx)
+  | err (e : PErr)
+  | panic
+deriving DecidableEq, Repr
+
+def HStep.ofParseRes (idx : Option BaseIdx) : ParseRes → HStep
+  | .ok p => .ok p idx
+  | .err e => .err e
+  | .panic => .panic
+
+def HStep.ofRes : Res → HStep
+  | .ok p => .ok p none
+  | .panic => .panic
+
+def histStep (cur : ParsedIRI) : HOp → HStep
+  | .parse r => HStep.ofParseRes none (cur.parseRef r)
+  | .drop => .ok cur.dropFragment none
+  | .refDrop r =>
+    match parseIRI r with
+    | .error e => .err e
+    | .ok x => HStep.ofRes (cur.resolveReference x.dropFragment)
+  | .under b =>
+    match parseIRI b with
+    | .error e => .err e
+    | .ok x => HStep.ofRes (x.resolveReference cur)
+  | .childDrop r =>
+    match cur.parseRef r with
+    | .ok _ => .ok cur none
+    | .err e => .err e
+    | .panic => .panic
+  | .urlCopy => .ok cur none
+  | .viaBase r =>
+    match baseIndices cur with
+    | none => .panic
+    | some i => HStep.ofParseRes (some i) (cur.parseRef r)
+
+/-- all steps of a history; stops after the first step that is not `ok` -/
+def runHist : ParsedIRI → List HOp → List HStep
+  | _, [] => []
+  | cur, o :: os =>
+    match histStep cur o with
+    | .ok p i => .ok p i :: runHist p os
+    | other => [other]
+
+/-- the value a history ends in (`none` when a step failed) -/
+def histEnd : ParsedIRI → List HOp → Option ParsedIRI
+  | cur, [] => some cur
+  | cur, o :: os =>
+    match histStep cur o with
+    | .ok p _ => histEnd p os
+    | _ => none
+
 end RdfModel.PIRI
